@@ -56,6 +56,10 @@ def main():
         sys.exit(0 if ok else 1)
     try:
         mod.check(run)
+    except core.WrongShape as exc:
+        run.violation(f"the library returned an array of the wrong shape: {exc}",
+                      {"case": "library-wrong-shape", "message": str(exc), "traceback": traceback.format_exc()[-3000:],
+                       "last_case": run.last_case, "signature": {"kind": "library-wrong-shape"}})
     except Exception as exc:
         # an exception raised inside the library on a request the check considers valid is a violation of the
         # property (the function does not return what it must); an exception of the harness itself is a broken check
